@@ -1,9 +1,9 @@
 SPECIFICATION Spec
 CONSTANTS
   SID = {1}
-  Profiles <- ProfSmall
+  Profiles <- ProfChain
   MaxVal = 0
-  DEV <- Dev_CopyBumpOnlyToSrcStage
+  DEV <- Dev_SkipUnflagged
   MaxVer = 3
   WithSnap = FALSE
   SelfCopy = TRUE
